@@ -15,9 +15,15 @@ from models import OsVal, Some, NONE, Ok, Err
 MAXLEN = 40
 
 
-def explore(nargs, cfg, funcs, index, enums):
-    """cfg: dict(n=bool, L=bool, s=bool, x=bool, r=bool).  Returns result dict."""
-    res = {"config": cfg, "args": nargs, "paths": 0, "violations": [], "panics": [], "unsupported": {}, "obligations": 0, "samples": []}
+SYS_BUDGET = 1000000
+
+
+def explore(nargs, cfg, funcs, index, enums, order=None):
+    """cfg: dict(n=bool, L=bool, s=bool, x=bool, r=bool); order: the limiter chain as do_xargs installs it (c06_wiring reads it off the MIR),
+    e.g. ('n', 's', 'sys'); default: n, L, s.  Returns result dict."""
+    if order is None:
+        order = tuple(k for k in ("n", "L", "s") if cfg[k])
+    res = {"config": cfg, "args": nargs, "chain": list(order), "paths": 0, "violations": [], "panics": [], "unsupported": {}, "obligations": 0, "samples": []}
     lens = [z3.Int("len%d" % i) for i in range(nargs)]
     hard = [z3.Bool("hard%d" % i) for i in range(nargs)]
     outc = [z3.Int("out%d" % i) for i in range(nargs + 1)]          # 0 success, 1 failure(1..125), 2 exit 255
@@ -79,12 +85,9 @@ def explore(nargs, cfg, funcs, index, enums):
         m.reset_path(prefix)
         state.update(read=0, batches=[], outcomes=[], hardv={})
         limiters = VecObj()
-        if cfg["n"]:
-            limiters.items.append(BoxObj(Struct("MaxArgsCommandSizeLimiter", [0, n_lim])))
-        if cfg["L"]:
-            limiters.items.append(BoxObj(Struct("MaxLinesCommandSizeLimiter", [1, l_lim])))
-        if cfg["s"]:
-            limiters.items.append(BoxObj(Struct("MaxCharsCommandSizeLimiter", [0, s_lim])))
+        for k in order:
+            limiters.items.append(BoxObj({"n": lambda: Struct("MaxArgsCommandSizeLimiter", [0, n_lim]), "L": lambda: Struct("MaxLinesCommandSizeLimiter", [1, l_lim]),
+                                          "s": lambda: Struct("MaxCharsCommandSizeLimiter", [0, s_lim]), "sys": lambda: Struct("MaxCharsCommandSizeLimiter", [0, SYS_BUDGET])}[k]()))
         coll = Struct("LimiterCollection", [limiters])
         action = Enum("ExecAction", "Command", [VecObj([OsVal("cmd", cmdlen)])])
         outcome = None
@@ -200,7 +203,13 @@ def check_path(m, res, cfg, nargs, outcome, state, lens, hard, outc, cmdlen, n_l
             # with -x an -s overflow is fatal even if the argument would fit alone; otherwise it must not fit alone
             pending = [i for i in range(j) if i not in flat]
             over_s = cost(pending + [j]) > s_lim
-            prove(m, res, "'argument too large' although it fits alone and -x does not apply", z3.Or(z3.Not(alone_fits), over_s), state, outcome)
+            # ... but only an overflow of -s in an invocation that -n / -L still allow: when the count limit is what holds the argument back, the pending
+            # invocation is complete and has to run (the argument then starts the next one) - nothing may be lost to a merely hypothetical -s overflow
+            counts = []
+            if cfg["n"]: counts.append(z3.IntVal(len(pending) + 1) <= n_lim)
+            if cfg["L"]: counts.append(z3.IntVal(lines(pending + [j])) <= l_lim)
+            prove(m, res, "'argument too large' although it fits alone and -x does not apply (no -s overflow within the -n / -L limits)",
+                  z3.Or(z3.Not(alone_fits), z3.And(over_s, *counts)), state, outcome)
         else:
             prove(m, res, "'argument too large' for an argument that fits in an empty invocation", z3.Not(alone_fits), state, outcome)
         return
@@ -227,6 +236,7 @@ CONFIGS = [
     {"n": True, "L": False, "s": True, "x": False, "r": False},
     {"n": True, "L": False, "s": True, "x": True, "r": False},
     {"n": False, "L": True, "s": True, "x": False, "r": False},
+    {"n": False, "L": True, "s": True, "x": True, "r": False},
     {"n": False, "L": True, "s": False, "x": False, "r": True},
     {"n": False, "L": False, "s": False, "x": False, "r": True},
 ]
@@ -235,7 +245,7 @@ if __name__ == "__main__":
     nargs = int(sys.argv[1]) if len(sys.argv) > 1 else 2
     text = open(sys.argv[2]).read() if len(sys.argv) > 2 else None
     funcs, index, enums, secs, _ = loader.load(os.environ.get("FINDUTILS_REPO", "/repo"), text)
-    for cfg in CONFIGS[: int(os.environ.get("NCFG", "7"))]:
+    for cfg in CONFIGS[: int(os.environ.get("NCFG", "8"))]:
         r = explore(nargs, cfg, funcs, index, enums)
         v = r["violations"]
         print(json.dumps({k: r[k] for k in ("config", "paths", "obligations", "solver_calls", "wall_s", "unsupported")}))
